@@ -111,6 +111,10 @@ def extra_checks(pid, tier, rng):
                 lines.append(("H.de_json %s %s" % (t, hx(js)), "err Serde"))
         _harness_expect(r, lines, valid_or_error=True)
         res.append(r)
+    if pid in ("C05", "C06", "C18"):
+        import readings
+        from gen import Pools
+        res.append(readings.run(pid, tier, rng, Pools(rng, 1)))
     return res
 
 
